@@ -960,7 +960,7 @@ def submission_order_scripts(rng, tier, prefix):
 def congruent_id_scripts(prefix, tier):
     """two inbound QoS 2 exchanges whose identifiers coincide modulo a power of two: every sequence of deliveries and releases"""
     out = []
-    pairs = [(3, 67), (1, 257), (5, 1029)] + ([] if tier == 'quick' else [(2, 65538 % 65536 + 65534), (9, 9 + 4096), (7, 7 + 32768)])
+    pairs = [(3, 67), (1, 257), (5, 1029)] + ([] if tier == 'quick' else [(2, 2 + 16384), (9, 9 + 4096), (7, 7 + 32768)])
     i = 0
     for a, b in pairs:
         syms = [('P', a), ('P', b), ('R', a), ('R', b)]
